@@ -404,7 +404,25 @@ def gen_two():
     return Mesh(lon, lat, faces, "two")
 
 
+def gen_rll(nx=6, ny=4, lon0=-180.0):
+    """Regular lat-lon grid reaching both poles: every pole row has nx DISTINCT nodes at the pole
+    (one per longitude, as lat-lon files have), so the polar cells are quads with a collapsed edge."""
+    lon, lat = [], []
+    for j in range(ny + 1):
+        for i in range(nx):
+            lon.append(lon0 + i * 360.0 / nx)
+            lat.append(-90.0 + 180.0 * j / ny)
+    faces = []
+    for j in range(ny):
+        for i in range(nx):
+            a = j * nx + i
+            b = j * nx + (i + 1) % nx
+            faces.append([a, b, (j + 1) * nx + (i + 1) % nx, (j + 1) * nx + i])
+    return Mesh(lon, lat, faces, "rll", closed=True)
+
+
 GENERATORS = {
+    "rll": gen_rll,
     "band": gen_band,
     "patch": gen_patch,
     "mix": gen_mix,
